@@ -112,6 +112,7 @@ func genTables(c *Ctx, verifDir string) error {
 var verifDirGlobal string
 
 func runC10(c *Ctx, r *Run) {
+	r.Rule("COVER-2", "constant-bound loops over fixed-size proof arrays (statistical repetitions) walk every element")
 	r.Rule("PARAM-1", "security and interval parameters have their reviewed values")
 	r.Rule("FS-1", "transcript completeness: every field of each struct parameter of challenge() and every other non-context parameter is absorbed by hash.WriteAny (arrays element-wise over the whole array)")
 	r.Rule("FS-3", "prover/verifier symmetry: both sides call the package's challenge function, on the caller-supplied context hash")
@@ -404,6 +405,21 @@ func runC10(c *Ctx, r *Run) {
 		}
 	}
 
+	// ---- COVER-2: repetition loops of the proofs cover every repetition
+	{
+		var fns []*ssa.Function
+		for _, p := range c.LibPkgs() {
+			if !strings.Contains(c.Rel(p.Types), "pkg/zk/") {
+				continue
+			}
+			for _, fn := range funcsOfPkg(c, c.SSA[p.Types]) {
+				withAnon(fn, func(f *ssa.Function) { fns = append(fns, f) })
+			}
+		}
+		sort.Slice(fns, func(i, j int) bool { return c.FuncName(fns[i]) < c.FuncName(fns[j]) })
+		checkArrayLoops(c, r, "COVER-2", fns)
+	}
+	r.Require("COVER-2", 4)
 	// ---- PARAM-1: the interval and size parameters the range predicates and samplers are built from
 	if pp := c.PkgRel("internal/params"); pp != nil {
 		want := map[string]int64{
